@@ -21,7 +21,7 @@ func runC17(r *engine.Run) {
 	r.Rule("AGREE-sentinels", "the set of errors iterate counts as 'absent node' equals the set HasMissingNodes maps to (true, nil), and contains the store's ErrNodeNotFound, iterate's own ErrIteratingChildNodes and the detection handler's ErrMissingNodes")
 	r.Rule("AGREE-lockstep", "see C14: the store-level repair (MergeState) hands every foreign node to the target store together with its own key")
 	r.Rule("FRESH-donor", "nodes handed out by the donor store during MergeDB are not modified (FRESH-node of C03 applied to the donor-store source)")
-	r.Rule("DOM-record", "addMissingNodeKeys appends the key of the failed access to the recorded missing keys on every path (no cap, filter or early return): every absent node a lookup hits is among the reported keys")
+	r.Rule("DOM-record", "addMissingNodeKeys appends the key of the failed access to the recorded missing keys on every path (no cap, filter or early return): every absent node a lookup hits is among the reported keys; getNode calls it exactly where the store's error tested equal to ErrNodeNotFound")
 	r.Rule("ERR-guard", "wherever the error of a call is compared with nil and one successor of the test is a plain return block, that successor is the error != nil edge and returns a non-nil error (the error itself, a sentinel or a constructed error); an early return handing back the error on the edge where it is nil is a swapped test")
 	r.Rule("ERR-dropped", "the error result of every repository operation (trie, node store, storage adapter/batcher methods) called here is looked at - compared, returned or stored; deliberate drops are an explicit table with reasons")
 	r.Rule("DOM-nodefound", "a node store reports a node as found only for what it holds: MemoryNodeDB.getNode returns a nil error only where its map lookup's found flag tested true; PNodeDB.GetNode decodes only where the fetched bytes tested non-empty (otherwise ErrNodeNotFound)")
@@ -465,6 +465,30 @@ func domRecord(r *engine.Run, rule string) {
 	}
 	if n < 1 {
 		r.Anchor(rule, fmt.Errorf("unresolved anchor: returns of addMissingNodeKeys"))
+	}
+	// the call site: getNode records where the store answered ErrNodeNotFound
+	if g := r.Fn(rule, pkgUtil, "MerklePatriciaTrie", "getNode"); g != nil {
+		sites := 0
+		engine.Instrs(g, func(in ssa.Instruction) {
+			c, ok := in.(*ssa.Call)
+			if !ok || c.Call.StaticCallee() != f {
+				return
+			}
+			sites++
+			good := false
+			if facts, full := engine.FactsOn(g, c.Block()); full {
+				for _, ft := range facts {
+					if ft.Kind == "eq" && ft.Truth && (globalErrName(ft.A) == "ErrNodeNotFound" || globalErrName(ft.B) == "ErrNodeNotFound") {
+						good = true
+					}
+				}
+			}
+			r.Check(good, rule, fn(g)+"|records not-found", r.P.Pos(c.Pos()), "the key is recorded where the store's error tested equal to ErrNodeNotFound",
+				"getNode records a missing key on a path where the store did not answer ErrNodeNotFound (or not on the path where it did)")
+		})
+		if sites == 0 {
+			r.Fail(rule, fn(g)+"|records not-found", r.P.Pos(g.Pos()), "getNode no longer records the keys of absent nodes: the trie reports no missing keys although lookups fail")
+		}
 	}
 }
 
